@@ -252,6 +252,9 @@ def _revert_variable(var_type, value):
         return value
     elif var_type in datatypes.FLOAT_TYPES:
         return value
+    elif value < 0:
+        # A negative number cannot be written in hexadecimal notation
+        return str(value)
     else:
         return f"0x{value:02X}"
 
